@@ -62,8 +62,12 @@ must show exactly what it showed before - a copy and its source whatever happens
 also a filter_packages / choose_packages view and its source, whatever the filter kept.  A database
 that does hold one of them (a filter_tags view, a reverse() view, their sources) may show the
 inserted name - its indexes are then not promised to be inverse - but nothing else may change
-(Interp.after_insert); it stays in the pool in the state it shows, and everything derived from it
-later must reflect that state: a derivation asked again of the same object after its data changed
+(Interp.after_insert).  More is demanded of a reverse() pair: reverse is one of the derivations the
+statement lists and the view has no index of its own that could lag behind, so when the database
+inserted into has inverse indexes after the insert, the other one of the pair (inverse before)
+either does not show the insert or shows it in both indexes - whatever the size of either index,
+an empty one included.  Such a database stays in the pool in the state it shows, and everything
+derived from it later must reflect that state: a derivation asked again of the same object after its data changed
 through another route (a sharing view, qread(), read(), the deprecated alias) is checked against the
 current data like the first one.  A database obtained through qread() is compared with the state
 its writer had at qwrite() time and is independent of everything.  A read()/qread() INTO a database
@@ -144,12 +148,20 @@ RULE = ("cases are histories [init lines, tag filter, op list] over a pool of da
         "length 1..2 over 4 inserts, reverse, copy, facet_collection, filter_tags / filter_packages keeping "
         "everything x targets], both spellings; after every insert every live database is looked at "
         "(unchanged unless it documentedly shares a package set the insert adds to); "
+        "enumerated degenerate starts: 46312 histories from a collection with no package at all / a blank line / "
+        "packages but no tag at all / one package with or without a tag / every tag rejected by the tag_filter / the "
+        "untagged package kept by filter_packages_tags(_copy) or choose_packages / nothing kept by filter_packages, "
+        "choose_packages_copy, filter_tags(_copy) + every op sequence of length 1..2 over 14 ops (both spellings) and "
+        "[reverse | copy | filter_packages | filter_tags] + any op + an insert, with inserts through the views and "
+        "into their sources (a one-character name, a name under an existing package of a reverse() view, a package "
+        "without tags) and every live database re-examined; "
         "enumerated package names: 7920 read()s of a two-line text in which one line holds a name of one of 33 "
         "shapes (libc6:amd64, x:y:z, a::b, :a, a:::b, 1.2.3, ., c++, +, 0, 007, non-ASCII, 300 / 5000 / 70000 / "
         "75000 / 80000 characters with and without colons) alone, first, in the middle, last or next to another such "
         "name x two tags / one tag / no tag in the four line styles x 4 input forms x last line with / without "
         "newline, each followed by choose_packages_copy, an insert, reverse() and the multi-name queries; "
-        "generated: 0..8 initial packages "
+        "generated: 0..8 initial packages (a fifth of the histories start from no package at all, from 1..5 lines "
+        "without any tag, or from a single line; a seventh of the tag_filters reject every tag) "
         "in single- and multi-package lines (distinct names of 1..6 characters; one-character names in "
         "about half of the positions and exclusively in a fifth of the histories; in another fifth names of 1..9 "
         "characters over a b 1 0 : . + not ending in a colon and fixed ones such as libc6:amd64, x:y:z, a::b, :a, 1.2, "
@@ -180,6 +192,11 @@ ASSUMPTIONS = [
     "the known finding is listed also characters of the name) and nothing else; such a database is then taken in "
     "the state it shows (checked through every query method) and later derivations from it follow the "
     "'restrict one index, re-derive the other' reading of model/c20_relation.py",
+    "the reverse() pair is the one case of sharing in which more is demanded after an insert: if the database "
+    "inserted into is inverse afterwards and its reverse() view / source was inverse before, the latter is either "
+    "unchanged or inverse again (the statement names reverse among the derivations after which the indexes are "
+    "inverse; the view owns no index of its own that could lag behind) - not demanded while either of them is already "
+    "non-inverse (known finding, or an earlier insert through a filter_tags view)",
     "a read()/qread() into a database: views documented as sharing sets with its old content are not examined "
     "any further (nothing says what becomes of them); every other database must be unchanged",
     "facet of a tag of the documented shape facet::name = the text before the '::' (= before its first colon); "
@@ -233,12 +250,14 @@ EXHAUSTIVE = {
              "histories handing choose_packages(_copy) and the multi-name queries their names in 8 forms x 3 orders "
              "(FORM_DESC); 7920 read()s of a text holding a package name with colons / '::' / dots / plus signs / "
              "digits only / 300..80000 characters in every position of a tagged or untagged line x input form x "
-             "final newline (NAME_DESC)",
+             "final newline (NAME_DESC); 46312 histories from 14 degenerate starting points (an index empty or of "
+             "size one, read or obtained through a filter) x op sequences of length 1..2 over 14 ops x targets x "
+             "spelling, and of length 3 [reverse | copy | filter_packages | filter_tags] + op + insert (DEGEN_DESC)",
     "thorough": "all op sequences of length 1..3 over the 19-op alphabet x both spellings and of length 1..4 over "
                 "its first 17 ops "
                 "(snake_case; no multi-name queries / pickle round trip) x target index 0..position on the fixed "
                 "collection; the 72 long-text read()s of the quick tier; the failed-read, odd-tag, repeated-derivation, "
-                "boundary-filter, argument-form and package-name-shape enumerations of the quick tier",
+                "boundary-filter, argument-form, package-name-shape and degenerate-start enumerations of the quick tier",
 }
 BUDGET = {"quick": 200, "thorough": 1500}
 
@@ -1055,6 +1074,19 @@ class Interp(object):
                         raise Violation("insert-through-shared-sets-changes-other-pairs",
                                         "insert(%r, %s) on %s left %s as: %s" % (
                                             pkg, sorted(tags), e.name(), o.name(), rel.diff(obs, o.S)))
+            if o.dg is e.dg and o.S.is_relation() and e.S.is_relation() and not obs.is_relation():
+                # reverse() is one of the derivations the statement lists: "after any sequence of
+                # ... inserts and derivations ... a package is listed under a tag exactly when the
+                # tag is listed for the package".  A reverse() view and its source hold the same
+                # tagsets in both indexes, so - unlike a filter_tags view, which has an index of
+                # its own - nothing stands in the way: when the database inserted into is inverse
+                # after the insert, the other one of the pair, if it shows the insert at all, shows
+                # it in both indexes (whatever the size of either index was before).
+                raise Violation("insert-leaves-reverse-view-pair-not-inverse",
+                                "insert(%r, %s) on %s (indexes inverse before and after) left %s, which was "
+                                "inverse before, as %s: %s" % (
+                                    pkg, sorted(tags), e.name(), o.name(), short(obs.show(), 240),
+                                    rel.diff(obs, o.S)))
             check_queries(o.db, obs, o.name())
             if observe(o.db, o.name()) != obs:
                 raise Violation("query-changes-collection", "%s after the query methods were called: %s" % (
@@ -1532,6 +1564,71 @@ def keep_cases():
                                    "ops": one + [[mark + o2[0], j] + o2[1:]]}
 
 
+# degenerate collections as the starting point of every derivation and of every sharing-view history:
+# one index (or both) empty, or as small as an index can be
+UNTAGGED = [[["p"], [], 0], [["q"], [], 1], [["s", "t"], [], 2], [["rr"], [], 3]]
+# (what, init, tag_filter, ops that lead to the degenerate collection - it is then the LAST pool member)
+DEGEN_STARTS = [
+    ("no package at all (empty text)", [], None, []),
+    ("a blank line only", [[[], [], 0]], None, []),
+    ("five packages, no tag at all (lines without tags in the four styles)", UNTAGGED, None, []),
+    ("one package without tags", [[["p"], [], 0]], None, []),
+    ("one package, one tag", [[["p"], ["f::a"], 0]], None, []),
+    ("the fixed collection read with a tag_filter that rejects every tag", ENUM_INIT, [], []),
+    ("filter_packages_tags_copy keeping the untagged package only", ENUM_INIT, None,
+     [["filter_packages_tags_copy", 0, ["rr"], []]]),
+    ("filter_packages_tags keeping the untagged package only", ENUM_INIT, None,
+     [["filter_packages_tags", 0, ["rr"], []]]),
+    ("choose_packages of the untagged package", ENUM_INIT, None, [["choose", 0, ["rr"]]]),
+    ("filter_packages keeping nothing", ENUM_INIT, None, [["filter_packages", 0, NONE]]),
+    ("choose_packages_copy of no name", ENUM_INIT, None, [["choose_copy", 0, NONE]]),
+    ("filter_tags keeping nothing", ENUM_INIT, None, [["filter_tags", 0, NONE]]),
+    ("filter_tags_copy keeping nothing", ENUM_INIT, None, [["filter_tags_copy", 0, NONE]]),
+    ("filter_tags_copy of the collection without tags", UNTAGGED, None, [["filter_tags_copy", 0, ALL]]),
+]
+DEGEN_INSERTS = [["insert", "z", ["p"]],          # in a reverse() view of a collection with package p: p gains the item z
+                 ["insert", "n", ["f::a"]],       # one-character name (M and M' agree), a tag that may be new
+                 ["insert", "m", []],             # a package without tags
+                 ["insert", "k::n", ["p", "q"]],  # through a reverse() view: two packages gain a tag
+                 ["insert", "nn", ["g::b", "h::c"]]]
+DEGEN_FIRST = [["reverse"], ["copy"], ["filter_packages", ALL], ["filter_tags", ALL]]
+DEGEN_OPS = DEGEN_FIRST + [["reverse_copy"], ["facet"], ["choose", ALL], ["filter_packages_tags_copy", ALL, []],
+                           ["qio", [], "fresh"]] + DEGEN_INSERTS
+DEGEN_DESC = ("%d degenerate starting points [%s] x every op sequence of length 1..2 over %d ops (reverse, copy, "
+              "filter_packages / filter_tags / choose_packages keeping everything, reverse_copy, facet_collection, "
+              "filter_packages_tags_copy, a pickle round trip, 5 inserts: a new item under an existing package through "
+              "a reverse() view, a one-character name under a new tag, a package without tags, two packages gaining a "
+              "tag, a multi-character name) x both spellings, and every sequence [reverse | copy | filter_packages | "
+              "filter_tags] + any of the %d ops + one of the first 3 inserts (snake_case); targets: the degenerate "
+              "collection and everything derived from it, and the collection it was filtered from; every live database "
+              "is looked at after every step" % (len(DEGEN_STARTS), "; ".join(s[0] for s in DEGEN_STARTS),
+                                                 len(DEGEN_OPS), len(DEGEN_OPS)))
+
+
+def degen_cases():
+    def case(init, flt, ops):
+        return {"kind": "history", "init": init, "filter": flt, "ops": [list(o) for o in ops]}
+    for _, init, flt, head in DEGEN_STARTS:
+        h = len(head)
+        targets = lambda pos: ([0] if h else []) + list(range(h, h + pos + 1))   # noqa: E731
+        for mark in ("", OLD):
+            pre = [[mark + o[0]] + o[1:] for o in head]
+            for o1 in DEGEN_OPS:
+                for i in targets(0):
+                    one = pre + [[mark + o1[0], i] + o1[1:]]
+                    yield case(init, flt, one)
+                    for o2 in DEGEN_OPS:
+                        for j in targets(1):
+                            yield case(init, flt, one + [[mark + o2[0], j] + o2[1:]])
+        for o1 in DEGEN_FIRST:
+            for o2 in DEGEN_OPS:
+                for j in targets(1):
+                    for o3 in DEGEN_INSERTS[:3]:
+                        for k in targets(2):
+                            yield case(init, flt, head + [[o1[0], h] + o1[1:], [o2[0], j] + o2[1:],
+                                                          [o3[0], k] + o3[1:]])
+
+
 # the same names handed over in every form an Iterable[str] can take, in three orders
 FORM_PRE = [([], 0), ([["reverse", 0]], 0), ([["reverse", 0]], 1),
             ([["insert", 0, "a", ["f::a", "k::n"]]], 0), ([["filter_packages", 0, ALL_BUT]], 1)]
@@ -1664,9 +1761,17 @@ def subset(pool, max_size, min_size=0):
 line_tags = st.one_of(st.just([]), subset(HOT, 3, 1), subset(HOT, 3, 1), subset(HOT, 2, 1),
                       subset(TAGS, 4), subset(TAGS, 4, 1), subset(TAGS, 4, 1),
                       subset(TAGS[:6] + ODD_TAGS + ["w::i:r"], 3, 1))
-tag_filter = st.one_of(st.none(), st.none(), st.none(), subset(TAGS, 7), subset(HOT, 3, 1))
-init_lines = st.lists(st.tuples(st.sampled_from([1, 1, 1, 1, 2, 3]), line_tags, st.integers(0, 3)),
-                      max_size=8)
+tag_filter = st.one_of(st.none(), st.none(), st.none(), st.none(), subset(TAGS, 7), subset(HOT, 3, 1),
+                       st.just([]))              # the last one rejects every tag
+# a fifth of the histories start from a degenerate collection: no package at all, packages but no
+# tag at all (one index empty), a single line
+init_lines = st.one_of(*[st.lists(st.tuples(st.sampled_from([1, 1, 1, 1, 2, 3]), line_tags, st.integers(0, 3)),
+                                  max_size=8)] * 12
+                       + [st.just([]),
+                          st.lists(st.tuples(st.sampled_from([1, 1, 2, 3]), st.just([]), st.integers(0, 3)),
+                                   min_size=1, max_size=5),
+                          st.lists(st.tuples(st.sampled_from([1, 1, 2]), line_tags, st.integers(0, 3)),
+                                   min_size=1, max_size=1)])
 read_lines = st.lists(st.tuples(st.lists(ANY, min_size=1, max_size=3), line_tags, st.integers(0, 3)),
                       max_size=5)
 ins_pkg = st.one_of(FRESH, FRESH, FRESH, FRESH, name1, nameN, st.sampled_from(EXTRA_TAGS + TAGS[:3]))
@@ -1854,7 +1959,7 @@ def machine_phase(shard, nshards, seed, deadline, rec):
                        subset(TAGS, 5).map(sorted), keepsel)
     m_tsel = st.one_of(subset(TAGS, 6).map(sorted), subset(HOT, 3, 1).map(sorted),
                        subset(universe, 8).map(sorted), keepsel)
-    m_filter = st.one_of(st.none(), st.none(), subset(TAGS, 7).map(sorted))
+    m_filter = st.one_of(st.none(), st.none(), st.none(), subset(TAGS, 7).map(sorted), st.just([]))
     m_old = st.sampled_from([False, False, True])
     def distinct(lines):
         seen, out = set(), []
@@ -1863,8 +1968,10 @@ def machine_phase(shard, nshards, seed, deadline, rec):
             seen.update(pk)
             out.append([pk, sorted(tags), style])
         return out
-    m_lines = st.lists(st.tuples(st.lists(mname, min_size=1, max_size=3), line_tags,
-                                 st.integers(0, 3)), max_size=8).map(distinct)
+    m_lines = st.one_of(*[st.lists(st.tuples(st.lists(mname, min_size=1, max_size=3), line_tags,
+                                             st.integers(0, 3)), max_size=8)] * 6
+                        + [st.lists(st.tuples(st.lists(mname, min_size=1, max_size=3), st.just([]),
+                                              st.integers(0, 3)), max_size=4)]).map(distinct)   # no tag at all
 
     class Machine(RuleBasedStateMachine):
         dbs = Bundle("dbs")
@@ -2010,6 +2117,7 @@ def sources(tier):
                 Enum("keep-all-none-all-but-one", keep_cases, KEEP_DESC),
                 Enum("argument-forms", form_cases, FORM_DESC),
                 Enum("name-shapes", name_cases, NAME_DESC),
+                Enum("degenerate-starts", degen_cases, DEGEN_DESC),
                 Hyp("pool-histories", gen_case(12), 400, shards=8)]
     return [Enum("op-alphabet<=3", enum_cases(3, ENUM_OPS_IO, ("", OLD)), EXHAUSTIVE["quick"]),
             Enum("long-texts", big_cases, LONG_DESC),
@@ -2019,6 +2127,7 @@ def sources(tier):
             Enum("keep-all-none-all-but-one", keep_cases, KEEP_DESC),
             Enum("argument-forms", form_cases, FORM_DESC),
             Enum("name-shapes", name_cases, NAME_DESC),
+            Enum("degenerate-starts", degen_cases, DEGEN_DESC),
             Enum("op-alphabet17<=4", enum_cases(4, ENUM_OPS), EXHAUSTIVE["thorough"]),
             Hyp("pool-histories", gen_case(20), 5000, shards=16),
             Custom("state-machine", machine_phase, shards=8)]
